@@ -156,6 +156,7 @@ func main() {
 	full := flag.Bool("full", false, "include scenario and history in every outcome")
 	samples := flag.Int("samples", 3, "include scenario+history for the first n runs")
 	histMax := flag.Int("histmax", 200, "history lines kept per outcome")
+	minSched := flag.String("minsched", "", "minimise the schedule of this replay file (scenario + signature) and rewrite it with the recorded choices")
 	flag.BoolVar(&debugPolicy, "debug", false, "replay: record the policy state after every policy step in the history")
 	procs := flag.Int("procs", 2, "GOMAXPROCS of this worker (the simulation runs one task at a time; results must not depend on it)")
 	flag.Parse()
@@ -178,6 +179,9 @@ func main() {
 	defer w.Flush()
 	enc := json.NewEncoder(w)
 
+	if *minSched != "" {
+		os.Exit(minimiseSchedule(*prop, pd, *minSched))
+	}
 	if *replay != "" {
 		b, err := os.ReadFile(*replay)
 		if err != nil {
@@ -245,4 +249,112 @@ type ReplayFile struct {
 	Hash      uint64    `json:"hash"`
 	Scenario  *Scenario `json:"scenario,omitempty"`
 	Trace     []string  `json:"trace,omitempty"`
+}
+
+
+func outcomeHasSig(o *Outcome, sig string) bool {
+	for _, v := range o.Violations {
+		if v.Sig == sig {
+			return true
+		}
+	}
+	return false
+}
+
+// minimiseSchedule: record the scheduling choices of the failing run, then set
+// as many of them as possible to 0 ("keep running the current task") while the
+// same violation signature persists. Every candidate is one simulated run.
+func minimiseSchedule(prop string, pd *propDef, file string) int {
+	b, err := os.ReadFile(file)
+	if err != nil {
+		fmt.Fprintln(os.Stderr, err)
+		return 2
+	}
+	var raw map[string]json.RawMessage
+	var rf ReplayFile
+	if json.Unmarshal(b, &raw) != nil || json.Unmarshal(b, &rf) != nil || rf.Scenario == nil {
+		return 0 // nothing to minimise (component without a scenario, race report)
+	}
+	sc := rf.Scenario
+	sig := rf.Signature
+	recordChoices = true
+	defer func() { recordChoices = false }()
+	run := func(choices []int32, use bool) (*Outcome, []int32) {
+		c := *sc
+		c.Choices, c.UseChoices = choices, use
+		o, rd := runOne(prop, pd, c.Seed, rf.Index, rf.Tier, &c)
+		if rd == nil || rd.Res == nil {
+			return o, nil
+		}
+		return o, rd.Res.Choices
+	}
+	o, rec := run(nil, false)
+	if !outcomeHasSig(o, sig) || rec == nil {
+		return 0
+	}
+	cur := append([]int32(nil), rec...)
+	if o2, _ := run(cur, true); !outcomeHasSig(o2, sig) {
+		return 0 // replaying the recorded choices does not reproduce: keep the seed-only replay
+	}
+	tries, start := 0, time.Now()
+	ok := func(c []int32) bool {
+		if tries > 600 || time.Since(start) > 25*time.Second {
+			return false
+		}
+		tries++
+		o, _ := run(c, true)
+		return outcomeHasSig(o, sig)
+	}
+	nonzero := func(c []int32) int {
+		n := 0
+		for _, x := range c {
+			if x != 0 {
+				n++
+			}
+		}
+		return n
+	}
+	before := nonzero(cur)
+	// 1. cut the tail: everything after position p becomes 0
+	for p := len(cur) / 2; p > 0 && len(cur) > 0; p /= 2 {
+		cand := append([]int32(nil), cur[:len(cur)-p]...)
+		if ok(cand) {
+			cur = cand
+			p = len(cur) // restart with the shorter trace
+		}
+	}
+	// 2. zero chunks of halving size
+	for chunk := len(cur) / 2; chunk >= 1; chunk /= 2 {
+		for at := 0; at+chunk <= len(cur); at += chunk {
+			allZero := true
+			for _, x := range cur[at : at+chunk] {
+				if x != 0 {
+					allZero = false
+				}
+			}
+			if allZero {
+				continue
+			}
+			cand := append([]int32(nil), cur...)
+			for i := at; i < at+chunk; i++ {
+				cand[i] = 0
+			}
+			if ok(cand) {
+				cur = cand
+			}
+		}
+	}
+	for len(cur) > 0 && cur[len(cur)-1] == 0 {
+		cur = cur[:len(cur)-1]
+	}
+	sc.Choices, sc.UseChoices = cur, true
+	scb, _ := json.Marshal(sc)
+	raw["scenario"] = scb
+	note, _ := json.Marshal(fmt.Sprintf("schedule minimised: %d of %d scheduling choices differ from 'keep running the current task' (was %d of %d); %d candidate runs", nonzero(cur), len(rec), before, len(rec), tries))
+	raw["schedule_note"] = note
+	out, _ := json.MarshalIndent(raw, "", " ")
+	if err := os.WriteFile(file, out, 0o644); err != nil {
+		return 2
+	}
+	return 0
 }
